@@ -179,7 +179,7 @@ def cmd_check(pid, tier, seed, only=None, jobs_n=None):
             viol_print.append((v, k))
     for n, (v, _) in enumerate(viol_print):
         path = os.path.join('evidence', 'replay', f"{pid}-{re.sub('[^A-Za-z0-9_.-]', '_', v['harness'])}-{n}.json")
-        json.dump(dict(property=pid, module=mod.__name__, **v), open(os.path.join(ROOT, path), 'w'), indent=1, default=str)
+        json.dump(dict(dict(property=pid, module=mod.__name__), **v), open(os.path.join(ROOT, path), 'w'), indent=1, default=str)
         lines.append(f"VIOLATION property={pid} replay={path}")
         print(f"  violated obligation: {v.get('obligation')} in harness {v.get('harness')} inputs={json.dumps(v.get('values'), default=str)[:400]} "
               f"choices={v.get('choices')}", file=sys.stderr)
